@@ -194,7 +194,9 @@ fn observe_all(ase: &AsepriteFile, len: usize) -> Vec<String> {
 /// observe it; prints B's observation and a `differs` line when it is not the observation of B
 /// made on a fresh thread with no history.
 pub fn handle_history(parts: &[&str], out: &mut impl Write) {
-    if parts.len() != 4 {
+    // an optional fifth word `keep`: sprite A stays alive while B is loaded and observed
+    let keep = parts.len() == 5 && parts[4] == "keep";
+    if parts.len() != 4 && !keep {
         writeln!(out, "bad-op").unwrap();
         return;
     }
@@ -215,14 +217,21 @@ pub fn handle_history(parts: &[&str], out: &mut impl Write) {
             .flatten();
             let after = std::thread::spawn(move || {
                 crate::guard(|| {
+                    let mut alive = Vec::new();
                     for _ in 0..2 {
                         if let Ok(first) = AsepriteFile::read(io::Cursor::new(&a)) {
                             let _ = observe_all(&first, a.len());
-                            drop(first);
+                            if keep {
+                                alive.push(first);
+                            } else {
+                                drop(first);
+                            }
                         }
                     }
                     let ase = AsepriteFile::read(io::Cursor::new(&b)).ok()?;
-                    Some(observe_all(&ase, b.len()))
+                    let o = observe_all(&ase, b.len());
+                    drop(alive);
+                    Some(o)
                 })
                 .flatten()
             })
